@@ -14,7 +14,7 @@ OPS = "cdmrpgufial"
 
 
 def build(backend):
-    flags = TSAN + (["-DTHR_NOOP"] if backend == "noop" else VSBX_ADDR)
+    flags = TSAN + (["-DTHR_NOOP"] if backend == "noop" else ["-DTHR_NOOP", "-DTHR_EMBEDDER_TLS"] if backend == "noop_tls" else VSBX_ADDR)
     return core.build_harness("h_thr_" + backend, ["h_thr.cpp"], flags, compiler="clang++-14")
 
 
@@ -74,7 +74,7 @@ def run(chk):
     thorough = chk.tier == "thorough"
     chk.lean(thorough_checker=thorough)
     bins = {}
-    for b in ("vsbx", "noop"):
+    for b in ("vsbx", "noop", "noop_tls"):
         binp, log = build(b)
         if binp is None:
             chk.fail(f"harness h_thr ({b}) does not compile against the current headers", {"log_tail": log[-3000:]}, found=False)
@@ -84,7 +84,7 @@ def run(chk):
     nscen = 600 if thorough else 48
     scen = []
     for k in range(nscen):
-        backend = "vsbx" if k % 2 == 0 else "noop"
+        backend = "vsbx" if k % 2 == 0 else ("noop" if k % 4 == 1 else "noop_tls")     # noop_tls: embedder-provided TLS configuration
         n = rng.choice([2, 2, 3, 4, 4, 6, 8, 12, 16])
         progs = [gen_prog(rng, rng.randint(8, 40)) for _ in range(n)]
         line = f"thr {n} {rng.randrange(1 << 30)} " + " ".join("| " + " ".join(p) for p in progs)
@@ -93,7 +93,7 @@ def run(chk):
     mq = []
     for backend, n, progs, line in scen:
         for t, p in enumerate(progs):
-            mq.append(f"thrseq {backend} {t} " + " ".join(p))
+            mq.append(f"thrseq {backend.split('_')[0]} {t} " + " ".join(p))
     rc, mlines, merr = core.run_model("\n".join(mq) + "\n")
     if rc != 0 or len(mlines) != len(mq):
         raise SystemExit("infrastructure error: model driver failed on thrseq " + merr[-300:])
@@ -129,7 +129,7 @@ def run(chk):
                          {"correspondence": "thr sequential", "program": " ".join(progs[t]), "impl_alone": alone, "model": model[t]}, found=False)
     chk.cov["evaluations"] += sum(len(p) for s in scen for p in s[2])
     chk.cov["distinct_nontrivial"] = len(scen)
-    chk.cov["input_distribution"] = {"scenarios": len(scen), "threads_per_scenario": nthreads_hist, "ops_by_kind": ops_hist, "backends": {"vsbx": (len(scen) + 1) // 2, "noop": len(scen) // 2},
+    chk.cov["input_distribution"] = {"scenarios": len(scen), "threads_per_scenario": nthreads_hist, "ops_by_kind": ops_hist, "backends": {b: sum(1 for x in scen if x[0] == b) for b in ("vsbx", "noop", "noop_tls")},
                                      "scenarios_with_tsan_report": tsan_reports, "log_mismatches": mism}
     chk.cov["rule"] = ("seeded scenarios of 2..16 threads, each thread owning two instances and running 8-40 random ops (create, destroy, malloc+store, read back, pointer-cell round trip, register/unregister callback, "
                        "function-pointer cell round trip = example-based lookup in the shared live list, invoke with callback checking the sandbox it is given), random yields to perturb the schedule, all threads released together; "
